@@ -12,7 +12,7 @@ pub fn prop() -> Prop {
     Prop {
         id: "C03",
         level: "model_checking",
-        rule: "configurations = set(2) x split(3, one reading a --set variable) x filter(3, one a --set macro) x select(4, one reading a previously selected name) x unique(2) x sort(5: none, 1 key both directions, 2 keys, a selected name) x skip(3) x take(3) x {none, --group-by, --merge, --group-by on a selected name} x only-objects-and-arrays(2) = 51 840 (quick: the 17 280 with --set given and a filter); inputs = all sequences of <=2 (thorough <=3) values over 9 records (ties, items that differ only in where a nested object closes, absent and non-string keys, empty and missing arrays, a scalar, an array, integers that differ only beyond 2^53) and cyclic repetitions to 17 and 40 rows for every 13th configuration; every configuration is also run with its option groups reversed and rotated (relative order of repeated --select/--sort-by kept), and every 211th with all permutations of its option groups; and with each of --regular-expression-cache-size, --on-error=stderr/panic/stdout added at a varying position (nothing may change on a clean input); non-trivial = at least two stages are active and something is printed; distinct by construction; plus, for 10 configurations whose stage expressions read the position of a record (&index, &index-in-file) or not, every sequence of <=4 values over 2 records, an array and 3 scalars with --only-objects-and-arrays against the same sequence without its scalars; every configuration is also run in 7 other documented spellings of its command line, one per second case in rotation and all of them on the empty input (three of them mixing the spellings within one command line; second long names such as --choose/--where/--break-by/--combine/--order-by/--limit, short options, value as a separate word or attached); presence patterns: every sequence of <=3 (thorough <=4) records out of 7 that hold only the first, only the second, both, a third or none of the selected members x selections(a,b / a,b,c / b,a / none) x unique x sort(none, .a, .b DESC, .c+.a) x limits(none, skip 1, take 1, skip 1 take 2) x {none, --merge, --group-by .a}",
+        rule: "configurations = set(2) x split(3, one reading a --set variable) x filter(3, one a --set macro) x select(4, one reading a previously selected name) x unique(2) x sort(5: none, 1 key both directions, 2 keys, a selected name) x skip(3) x take(3) x {none, --group-by, --merge, --group-by on a selected name} x only-objects-and-arrays(2) = 51 840 (quick: the 17 280 with --set given and a filter); inputs = all sequences of <=2 (thorough <=3) values over 9 records (ties, items that differ only in where a nested object closes, absent and non-string keys, empty and missing arrays, a scalar, an array, integers that differ only beyond 2^53) and cyclic repetitions to 17 and 40 rows for every 13th configuration; every configuration is also run with its option groups reversed and rotated (relative order of repeated --select/--sort-by kept), and every 211th with all permutations of its option groups; and with each of --regular-expression-cache-size, --on-error=stderr/panic/stdout added at a varying position (nothing may change on a clean input); non-trivial = at least two stages are active and something is printed; distinct by construction; plus, for 10 configurations whose stage expressions read the position of a record (&index, &index-in-file) or not, every sequence of <=4 values over 2 records, an array and 3 scalars with --only-objects-and-arrays against the same sequence without its scalars; every configuration is also run in 7 other documented spellings of its command line, one per second case in rotation and all of them on the empty input (three of them mixing the spellings within one command line; second long names such as --choose/--where/--break-by/--combine/--order-by/--limit, short options, value as a separate word or attached); presence patterns: every sequence of <=3 (thorough <=4) records out of 9 that hold only the first, only the second, both, a third, none of the selected members or null x selections(a,b / a,b,c / b,a / a alone / none) x unique x sort(none, .a, .b DESC, .c+.a) x limits(none, skip 1, take 1, skip 1 take 2) x {none, --merge, --group-by .a}",
         explanation: "stdout rows are compared with the reference pipeline (pure list transformations in the documented order); argument orders are compared byte for byte with the canonical order",
         assumptions: COMMON_ASSUMPTIONS.to_vec(),
         guards: vec!["selections-present-in-different-columns", "limits-whose-sum-exceeds-64-bits", "command-line-respelled", "scalars-removed-before-position-dependent-stages", "irrelevant-option-added", "limiter-before-grouper", "two-sort-keys-with-take", "split-reads-set-variable", "sort-by-selected-name", "all-group-permutations", "scalar-removed-by-only-objects-and-arrays", "unique-removed-a-row", "group-by-selected-name"],
@@ -300,10 +300,10 @@ fn run(ctx: &mut Ctx) {
 /// both (same or different values), only a third member, nothing. Equal values then sit in different columns, rows
 /// without a sort key arrive before and between rows that have one, and rows without a group key before the first group.
 fn presence_patterns(ctx: &mut Ctx) {
-    let recs: Vec<V> = ["{\"a\":\"x\"}", "{\"b\":\"x\"}", "{\"a\":\"x\",\"b\":\"x\"}", "{\"a\":\"x\",\"b\":\"y\"}", "{\"c\":\"x\"}", "{}", "{\"a\":\"y\",\"c\":\"x\"}"].iter().map(|t| json::parse_str(t)).collect();
+    let recs: Vec<V> = ["{\"a\":\"x\"}", "{\"b\":\"x\"}", "{\"a\":\"x\",\"b\":\"x\"}", "{\"a\":\"x\",\"b\":\"y\"}", "{\"c\":\"x\"}", "{}", "{\"a\":\"y\",\"c\":\"x\"}", "{\"a\":null}", "{\"a\":null,\"b\":\"x\"}"].iter().map(|t| json::parse_str(t)).collect();
     let mut inputs: Vec<Vec<V>> = Vec::new();
     crate::explore::seqs_upto(recs.len(), ctx.tier.pick(3, 4), |i| inputs.push(i.iter().map(|j| recs[*j].clone()).collect()));
-    let radix = [4usize, 2, 4, 4, 3];
+    let radix = [5usize, 2, 4, 4, 3];
     let mut configs: Vec<Vec<usize>> = Vec::new();
     crate::explore::product(&radix, |ix| configs.push(ix.to_vec()));
     for ix in &configs {
@@ -315,6 +315,7 @@ fn presence_patterns(ctx: &mut Ctx) {
             0 => vec![(p(".a"), "a".into()), (p(".b"), "b".into())],
             1 => vec![(p(".a"), "a".into()), (p(".b"), "b".into()), (p(".c"), "c".into())],
             2 => vec![(p(".b"), "b".into()), (p(".a"), "a".into())],
+            3 => vec![(p(".a"), "a".into())],
             _ => vec![],
         };
         c.unique = ix[1] == 1;
@@ -335,7 +336,7 @@ fn presence_patterns(ctx: &mut Ctx) {
             1 => Some(Group::Merge),
             _ => Some(Group::By(p(".a"))),
         };
-        let full: Vec<usize> = vec![1, 0, 0, ix[0].min(2) + 1, ix[1], ix[2].min(1), ix[3].min(1), ix[3] / 2, ix[4], 0];
+        let full: Vec<usize> = vec![1, 0, 0, if ix[0] == 4 { 0 } else { ix[0].min(2) + 1 }, ix[1], ix[2].min(1), ix[3].min(1), ix[3] / 2, ix[4], 0];
         for inp in &inputs {
             ctx.guard("selections-present-in-different-columns");
             ctx.transition(&("presence", ix.clone(), inp.len()));
@@ -346,7 +347,7 @@ fn presence_patterns(ctx: &mut Ctx) {
             return;
         }
     }
-    ctx.level_done("presence-patterns(7-records-holding-some-of-the-selected-members,<=3-rows,384-configurations)");
+    ctx.level_done("presence-patterns(9-records-holding-some-of-the-selected-members-or-null,<=3-rows,480-configurations)");
 }
 
 /// "after --only-objects-and-arrays has removed top-level scalars": the stages see exactly the sequence that remains,
